@@ -1,3 +1,5 @@
-From Coq Require Import Extraction ExtrOcamlBasic.
+From Coq Require Import Extraction ExtrOcamlBasic ZArith.
 From V Require Import Base.Tree Rx.Spec.
+Definition run := rx_fn_run.
+Definition spec := rx_fn_spec.
 Extraction "model.ml" run spec.
